@@ -164,8 +164,9 @@ package bpv7
 //@ let pe := pbCrcPos(p + 1, b.PrimaryBlock) + (b.PrimaryBlock.CRCType != 0 ? 2 : 0)
 //@ ensures result == nil ==> tokRaw(w, p, 0x9f) && encPrimaryHead(w, p + 1, b.PrimaryBlock) && encPrimaryFrag(w, p + 1, b.PrimaryBlock) @thorough
 //@ ensures result == nil ==> forall k int :: 0 <= k && k < len(b.CanonicalBlocks) ==> encCanonicalHead(w, pe + cbOff(b.CanonicalBlocks, k), b.CanonicalBlocks[k]) @thorough
-//@ ensures result == nil ==> tokRaw(w, pe + cbOff(b.CanonicalBlocks, len(b.CanonicalBlocks)), 0xff) && wpos(w) == pe + cbOff(b.CanonicalBlocks, len(b.CanonicalBlocks)) + 1
-//@ loop 0 invariant 0 <= i && i <= len(b.CanonicalBlocks) && wpos(w) == pe + cbOff(b.CanonicalBlocks, i) && blocksNonNil(*b)
+//@ ensures result == nil ==> tokRaw(w, pe + cbOff(b.CanonicalBlocks, len(b.CanonicalBlocks)), 0xff) && wpos(w) == pe + cbOff(b.CanonicalBlocks, len(b.CanonicalBlocks)) + 1 @thorough
+//@ loop 0 invariant 0 <= i && i <= len(b.CanonicalBlocks) && blocksNonNil(*b)
+//@ loop 0 invariant wpos(w) == pe + cbOff(b.CanonicalBlocks, i) @thorough
 //@ loop 0 invariant tokRaw(w, p, 0x9f) && encPrimaryHead(w, p + 1, b.PrimaryBlock) && encPrimaryFrag(w, p + 1, b.PrimaryBlock) @thorough
 //@ loop 0 invariant forall k int :: 0 <= k && k < i ==> encCanonicalHead(w, pe + cbOff(b.CanonicalBlocks, k), b.CanonicalBlocks[k]) @thorough
 //@ loop 0 invariant forall k int :: 0 <= k && k < len(b.CanonicalBlocks) ==> b.CanonicalBlocks[k].CRCType == old(b.CanonicalBlocks[k].CRCType)
